@@ -297,7 +297,23 @@ func mutateLifecycle(r *rand.Rand, j *gen.Journal) (*gen.Journal, string) {
 		return res
 	}
 	remove := func(i int) { m.Dirs = append(m.Dirs[:i:i], m.Dirs[i+1:]...) }
-	switch r.Intn(9) {
+	switch r.Intn(10) {
+	case 9: // close with two positions in different commodities that cancel numerically
+		var xs []int
+		for i, d := range m.Dirs {
+			if d.Kind == gen.KTxn && strings.HasPrefix(d.Desc, "zero out") && len(d.Bookings) > 0 {
+				xs = append(xs, i)
+			}
+		}
+		if len(xs) == 0 {
+			return nil, ""
+		}
+		z := m.Dirs[xs[r.Intn(len(xs))]]
+		acc, eq := z.Bookings[0].Credit, z.Bookings[0].Debit
+		q := fmt.Sprint(1 + r.Intn(500))
+		m.Dirs = append(m.Dirs, gen.Dir{Kind: gen.KTxn, Date: z.Date, Desc: "offsetting", Bookings: []gen.Booking{
+			{Credit: eq, Debit: acc, Qty: q, Com: "OFFA"}, {Credit: acc, Debit: eq, Qty: q, Com: "OFFB"}}})
+		return m, "close-offsetting-positions"
 	case 0: // drop an open
 		xs := idxOf(gen.KOpen)
 		if len(xs) == 0 {
